@@ -17,6 +17,8 @@ def run(tier):
     rep.rule('R18.a', 'no safety obligation fails on any path with failing allocations / refused transmits / failing getters (all entry points)', floor=3000)
     rep.rule('R18.b', 'every buffer obtained while handling a frame is released on every fault path (nothing live at exit except retained state)', floor=50)
     rep.rule('R18.c', 'MTU cannot be obtained: the 1500-byte fallback is in force before any use (all obligations hold in fallback mode; buffers are sized 1500)', floor=100)
+    rep.rule('R18.e.2', 'after any fault, a topology Reset leaves every field of the record fresh or provably dead (the entry record is arbitrary, so every post-fault state is covered)', floor=8)
+    rep.rule('R18.e.3', 'after such a Reset nothing transmitted and no decision depends on pre-Reset (post-fault) state: behaviour equals a freshly started responder', floor=20)
     rep.rule('R18.d', 'constructors: an allocation failure yields NULL (or a usable automaton without its optional block), never a dereference, never a leak', floor=6)
     res = safety.run_all(kinds=['frame.mtu', 'frame.fallback', 'ctors', 'api'] + ['tick:%d:%d' % (m, e) for m in range(3) for e in range(3)])
     for entry, r in sorted(res.items()):
@@ -51,7 +53,12 @@ def run(tier):
         else:
             rep.check(not c['returns_null'], 'R18.d', 'ctor|%s|ok-path' % c['ctor'], '%s returns NULL although every allocation succeeded' % c['ctor'],
                       file='lltdResponder/lltdAutomata.c', function=c['ctor'])
-    rep.analysed.update({'fault_paths_of_parseFrame': nfault, 'entries': sorted(res)})
+    # "after the fault clears and a Reset is received it behaves exactly like a freshly started responder": the Reset
+    # analysis of C09 starts from an arbitrary interface record, hence from every state a fault path can leave behind
+    from .c09 import recovery
+    from .automata_common import load_core
+    rinfo = recovery(rep, load_core('systemd'), 'R18.e')
+    rep.analysed.update({'fault_paths_of_parseFrame': nfault, 'entries': sorted(res), 'reset_recovery': rinfo})
     return finish(rep, 'proof',
                   'Fault model in the port contract (any allocation may return NULL, any transmit may be refused, any getter may fail, get_mtu may fail): every path of every entry point '
                   'under that model discharges its safety obligations, releases its per-request buffers and sizes buffers from the 1500 fallback; constructors return NULL on failure. '
